@@ -507,7 +507,9 @@ def build(tier="quick", seed=0):
                      "extracted ODE operators, and the reciprocity lemma chain; all decided by exact normal forms")
     b.assume("CyRK contract: the integrator returns the solution of the linear ODE it is given at the requested nodes; hence (with the proved operator equivariance and the proved relation of "
              "initial vectors) the rows of the scaled run are D^-1 times the rows of the unscaled run. Integrator choice, tolerances and grid refinement enter only through this contract: NOT proved")
-    b.assume("starting vectors: cf_find_starting_conditions(scaled arguments) = D^-1 cf_find_starting_conditions(arguments) (per-solution normalisation freedom is C04's subject); assumed here")
+    b.assume("starting vectors: cf_find_starting_conditions(scaled arguments) = s_j D^-1 cf_find_starting_conditions(arguments) - imported from C04 (obligations ::ensures:scaling_equivariant, proved "
+             "there for all nine start functions in the differential ring); the runs here take s_j = 1 for the first layer, which the result does not see (constants absorb it: same argument as for the "
+             "per-solution scalars of upper layers, which ARE carried)")
     b.assume("reciprocity: W vanishes on every pair of starting vectors - imported from C04 (obligations ::ensures:regular_pair[i,j], proved there for the Kamata families and the liquid "
              "Takeuchi family; refuted for the two solid Takeuchi functions = recorded C04 finding, so reciprocity is NOT established for Takeuchi-started solid cores); the remaining links "
              "(invariance under each operator, continuity across interfaces from the C02 conditions, surface algebra with the real find_love_cf) are proved here; planet_bulk_density consistent with the surface gravity")
